@@ -5,6 +5,7 @@ import Qentem.Proofs.StrToNumInt
 import Qentem.Proofs.StrToNumSign
 import Qentem.Proofs.StrToNumMalformed
 import Qentem.Proofs.StrToNumPaths
+import Qentem.Proofs.StrToNumSafe
 /-! C09 — text to number: integers exact, reals within one ulp, out-of-range rejected. -/
 namespace Qentem.Props.C09
 open Qentem.StrToNum Qentem.Round Qentem.Generated.StrToNum
@@ -289,5 +290,27 @@ example : (strToNum [49,101] 0 2).map (·.kind) = some .notANumber := by decide
 example : (strToNum [49,101,43] 0 3).map (·.kind) = some .notANumber := by decide
 example : (strToNum [49,101,43,45,50] 0 5).map (·.kind) = some .notANumber := by decide
 example : (strToNum [48,46,53,69] 0 4).map (·.kind) = some .notANumber := by decide
+
+
+/-! ### Memory safety and offset bounds, for every input (used by the JSON parser's C05)
+
+`strToNum` is written with checked reads (`rd c e i` is `none` unless `i < end_offset`); these two
+theorems say that no read ever fails when `end_offset ≤ length` and that every accepted result has
+consumed at least one unit and stopped inside the buffer. `e < 2^32` is the `SizeT` range. -/
+
+theorem strToNum_no_fault (c : List Nat) (o e : Nat) (hc : e ≤ c.length) (he : e < 2 ^ 32) :
+    ∃ r, strToNum c o e = some r := by
+  obtain ⟨x, h, _⟩ := strToNum_ok c e hc he o
+  exact ⟨x, h⟩
+
+theorem strToNum_offset_bounds (c : List Nat) (o e : Nat) (r : Res) (hc : e ≤ c.length) (he : e < 2 ^ 32)
+    (h : strToNum c o e = some r) (hk : r.kind ≠ .notANumber) : o < r.offset ∧ r.offset ≤ e := by
+  obtain ⟨x, hx, hb⟩ := strToNum_ok c e hc he o
+  rw [h] at hx; cases hx
+  have := hb hk
+  omega
+
+/-- the followers a JSON value can have (white space `, ] }`) all end an integer numeral -/
+example : [32, 9, 10, 13, 44, 93, 125].all (fun x => !contInt x && !contReal x && !contZero x) = true := by decide
 
 end Qentem.Props.C09
